@@ -727,8 +727,9 @@ const FAULTS: &[(&str, &[&str])] = &[
     ("extension-without-original", &[
         "extend type C17Ghost {\n  a: Int\n}\n",
         "extend enum C17GhostE {\n  V\n}\n"]),
-    // KNOWN FINDING (findings/C17.json): nitrogql accepts two definitions of one directive name; check_directives
-    // uses the first, so the verdict depends on which of the two comes first
+    // formerly a known finding (repaired by /repo 451006c): a directive defined twice must be rejected in every
+    // arrangement; the diagnostic kinds may differ with the order (the location/argument errors of the uses depend
+    // on which definition comes first), so for this fault only the failing stage is compared
     ("duplicate-directive-definition", &[
         "directive @c17dd(x: Int) on FIELD_DEFINITION\n",
         "directive @c17dd(y: String) on OBJECT\n",
@@ -1106,7 +1107,11 @@ fn main() {
                 let other = catch(move || run_inproc(&fb, &ob, &yb)).unwrap_or_else(|m| Outcome { verdict: format!("panic: {m}"), diagnostics: vec![], files: BTreeMap::new() });
                 let (k1, k2) = (kind_multiset(&base), kind_multiset(&other));
                 let cq = |k: &Vec<(String, u64)>| coq_list(k, |(a, b)| format!("({}, {})", coq_str(a), coq_n(*b)));
-                let t = format!("CPermV {} {} {} {}", coq_str(&base.verdict), coq_str(&other.verdict), cq(&k1), cq(&k2));
+                // (see FAULTS) for a twice-defined directive only the failing stage has to agree
+                let stage_only = *label == "duplicate-directive-definition";
+                let none: Vec<(String, u64)> = vec![];
+                let t = format!("CPermV {} {} {} {}", coq_str(&base.verdict), coq_str(&other.verdict),
+                                cq(if stage_only { &none } else { &k1 }), cq(if stage_only { &none } else { &k2 }));
                 distinct.insert(fnv(&format!("{t}{}", f2.join(""))));
                 cases.push(t, json!({"kind":"perm-invalid","fault":label,"schema_files":f1,"permuted_schema_files":f2,"operations":o2,
                     "config":y1,"permuted_config":y2,"verdict":base.verdict,"permuted_verdict":other.verdict,
